@@ -1,5 +1,6 @@
 import PilotaModel.Lemmas.AsyncBinRV
 import PilotaModel.Lemmas.AsyncCmpSkip
+import PilotaModel.Lemmas.MsgSim
 import PilotaModel.Props.C01
 /-
   C12 — asynchronous decoding equals in-memory decoding for every delivery schedule.
@@ -176,6 +177,15 @@ theorem async_skip_exact (p : AProto) (t : TType) (bs : Bytes) (hb : bs.length <
     | err k => simp [hx] at h
     | panic m => simp [hx] at h
     | fuel => simp [hx] at h
+
+/-- message envelopes: the async `read_message_begin` of each protocol accepts exactly the inputs the
+in-memory one accepts, with the same (name, type, seqid) and the same bytes left — for every schedule. -/
+theorem async_msg_eq_sync (bs : Bytes) (hb : bs.length < 2 ^ 63) (s : Stream) (hs : flat s = bs) (q : (Bytes × Nat × Int) × Bytes) :
+    (∀ e, flatOut (runS (ABin.readMessageBegin e) s) = .ok q ↔ Msg.readBeginBin e bs = .ok q) ∧
+    (flatOut (runS ACmp.readMessageBegin s) = .ok q ↔ Msg.readBeginCmp bs = .ok q) := by
+  constructor
+  · intro e; rw [runS_flat, hs]; exact ABin.readMessageBegin_iff e bs hb q
+  · rw [runS_flat, hs]; exact ACmp.readMessageBegin_iff bs q
 
 /-- a well-typed value written by pilota is decoded asynchronously, from any schedule, to the same
 value (compact: up to the key/value types of empty maps), pulling exactly its encoding. -/
